@@ -1,8 +1,8 @@
 package main
 
 import (
-	"sort"
 	"math/rand"
+	"sort"
 
 	"tags.cncf.io/container-device-interface/pkg/parser"
 )
